@@ -109,12 +109,15 @@ def find_link_image(string, offset, delimiters, matches, root=None):
 
 
 def process_emphasis(string, stack_bottom, delimiters, matches):
-    star_bottom = stack_bottom
-    underscore_bottom = stack_bottom
+    # lower bounds for the opener search, as in the reference implementation:
+    # one per delimiter character, "closer can also open" flag and closer length modulo 3
+    # (a bound found for one kind of closer says nothing about the other kinds).
+    openers_bottom = {}
     curr_pos = next_closer(stack_bottom, delimiters)
     while curr_pos is not None:
         closer = delimiters[curr_pos]
-        bottom = star_bottom if closer.type[0] == '*' else underscore_bottom
+        bottom_key = (closer.type[0], closer.open, closer.original_number % 3)
+        bottom = openers_bottom.get(bottom_key, stack_bottom)
         open_pos = matching_opener(curr_pos, delimiters, bottom)
         if open_pos is not None:
             opener = delimiters[open_pos]
@@ -137,12 +140,12 @@ def process_emphasis(string, stack_bottom, delimiters, matches):
                 curr_pos -= 1
             if curr_pos < 0:
                 curr_pos = 0
+            # the bounds are list indexes: none may point above the surviving part of the stack
+            for key, value in openers_bottom.items():
+                if value is not None and value >= curr_pos:
+                    openers_bottom[key] = curr_pos - 1 if curr_pos > 0 else stack_bottom
         else:
-            bottom = curr_pos - 1 if curr_pos > 1 else None
-            if closer.type[0] == '*':
-                star_bottom = bottom
-            else:
-                underscore_bottom = bottom
+            openers_bottom[bottom_key] = curr_pos - 1 if curr_pos > 0 else stack_bottom
             if not closer.open:
                 delimiters.remove(closer)
             else:
@@ -424,6 +427,7 @@ class Delimiter:
     def __init__(self, start, end, string):
         self.type = string[start:end]
         self.number = end - start
+        self.original_number = self.number
         self.active = True
         self.start = start
         self.end = end
@@ -452,8 +456,9 @@ class Delimiter:
             # restrictions apply: the sum of the lengths of the delimiter runs
             # containing the opening and closing delimiters must not be a multiple of 3
             # unless both lengths are multiples of 3.
-            return ((self.number + other.number) % 3 != 0
-                    or (self.number % 3 == 0 and other.number % 3 == 0))
+            # (the lengths of the whole runs count, not what is left of them after earlier matches.)
+            return ((self.original_number + other.original_number) % 3 != 0
+                    or (self.original_number % 3 == 0 and other.original_number % 3 == 0))
         return True
 
     def __repr__(self):
